@@ -18,7 +18,7 @@ Theorem C02_numeric_evaluation p bound s :
   bshapes [seq arg_shape a | a <- bound] = Some s ->
   exists2 vals, call_numeric p bound = Ok (shape p ++ s, vals) &
     forall i j, (i < psize p)%N -> (j < prodn s)%N ->
-      nth 0 vals (i * prodn s + j) = (absE n p i).@[point n (names p) bound s j].
+      nth 0 vals (i * prodn s + j) = (absE n p i).@[@point n R (names p) bound s j].
 Proof. exact: call_numeric_spec. Qed.
 
 Theorem C02_argument_shapes_must_broadcast p bound :
